@@ -16,6 +16,6 @@ tgt="/tmp/mut/tgt-$crate"
 sed -i "s#target-dir = .*#target-dir = \"$tgt\"#" "$d/mc/.cargo/config.toml"
 set +e
 (cd "$d/mc" && cargo build --release --offline -p "$crate" 2>&1 | grep -E "^error" -A8 | head -30)
-"$tgt/release/$crate" --tier "$tier" --no-evidence 2>&1 | grep -E "^VIOLATION|^  site=|^KNOWN|^C[0-9]+ tier|MACHINERY|cap:" | cut -c1-400
+"$tgt/release/$crate" --tier "$tier" --no-evidence ${SCRATCH_ARGS:-} 2>&1 | grep -E "^VIOLATION|^  site=|^KNOWN|^C[0-9]+ tier|MACHINERY|cap:" | cut -c1-400
 echo "exit=${PIPESTATUS[0]}"
 rm -rf "$d"
